@@ -1730,6 +1730,11 @@ func (ex *Exec) builtin(b *ssa.Builtin, args []Value, argTypes []types.Type) Val
 	switch b.Name() {
 	case "len":
 		switch x := args[0].(type) {
+		case ChanV:
+			if x.C == nil {
+				return IntV{tf.Const(64, 0)}
+			}
+			return IntV{tf.Const(64, uint64(len(x.C.queue)))}
 		case StrV:
 			return IntV{ex.strLen(x)}
 		case SliceV:
@@ -1753,6 +1758,11 @@ func (ex *Exec) builtin(b *ssa.Builtin, args []Value, argTypes []types.Type) Val
 		}
 	case "cap":
 		switch x := args[0].(type) {
+		case ChanV:
+			if x.C == nil {
+				return IntV{tf.Const(64, 0)}
+			}
+			return IntV{tf.Const(64, uint64(x.C.capacity))}
 		case SliceV:
 			return IntV{x.Cap}
 		case ArrayV:
